@@ -255,6 +255,12 @@ def generate(rng, tier):
         lines.append('lex ' + hx(text))
         n += 1
         yield Scn('comment-%d' % n, lines, {'class': 'comment', 'expect': {2: ('svals', [hx(b'a'), hx(b'b')])}})
+    # a '#' ends an unquoted word wherever it stands, also directly behind a slash: the comment contributes nothing
+    for w in (b'a', b'a/', b'/var/spool/', b'/b/#', b'x.y', b'a/b', b'http://h/'):
+        lines = ['schema 0 ' + schema_sexpr([Opt('str', b's', 0, None)]), 'init 0 0 0']
+        lines.append('lex ' + hx(w + b'#incoming c\n "b"'))
+        n += 1
+        yield Scn('comment-%d' % n, lines, {'class': 'comment-glued', 'expect': {2: ('svals', [hx(w.rstrip(b'#')), hx(b'b')])}})
 
 
 def nontrivial(scn, il):
